@@ -202,8 +202,10 @@ def str_slice(s: VStr, lo, hi) -> VStr:
     if s.kind == "sub":
         return VStr("sub", s.a, s.b + lo2, s.b + hi2)
     if s.kind == "lit":
-        # symbolic slice of a literal: introduce via a var-like wrapper
-        raise Unsupported("symbolic slice of a literal")
+        # symbolic slice of a literal: a var-like wrapper whose char function is the literal's ite chain
+        lit = s
+        base = VStr("var", (lambda i, _l=lit: _l.char(i)), z3.IntVal(len(lit.a)), "lit:" + repr(lit.a))
+        return VStr("sub", base, lo2, hi2)
     raise Unsupported(f"slice of {s.kind}")
 
 
